@@ -24,13 +24,13 @@ enum {
   F_REUSE = 0, F_PAGE_FULL, F_PAGE_FREED, F_HOLES, F_HUGE, F_OVERALIGNED, F_OFFSET, F_HEAP_DEL, F_HEAP_DESTROY,
   F_REALLOC_INPLACE, F_REALLOC_MOVED, F_ZERO_ON_DIRTY, F_ZCHAIN_INPLACE, F_ZCHAIN_MOVED, F_TFREE, F_TALLOC, F_VISIT,
   F_VISIT_HOLES, F_VISIT_FULL, F_VISIT_STOP, F_EDGE_FAIL, F_PURGE_SEEN, F_LIVE8, F_MULTIHEAP, F_COLLECT, F_LARGEPAGE,
-  F_MISUSE_DETECTED, F_ARENA, F_ABANDONED_VISIT, F_EXPAND, F_ARENA_FULL_NULL, F_EXCL_PRESSURE, F_ARENA_CAP, F_SUBPROC, F_FOREIGN_FREED, F_NFLAGS
+  F_MISUSE_DETECTED, F_ARENA, F_ABANDONED_VISIT, F_EXPAND, F_ARENA_FULL_NULL, F_EXCL_PRESSURE, F_ARENA_CAP, F_SUBPROC, F_FOREIGN_FREED, F_FORGE_TARGETED, F_NFLAGS
 };
 static const char* FLAG_NAMES[] = {
   "addr_reuse","page_full","page_freed","page_holes","huge_block","overaligned","offset_aligned","heap_delete","heap_destroy",
   "realloc_inplace","realloc_moved","zero_on_dirty","zchain_inplace","zchain_moved","thread_free","thread_alloc","visit",
   "visit_holes","visit_full","visit_stop","edge_fail","purge_seen","live8","multi_heap","collect","large_page",
-  "misuse_detected","arena","abandoned_visit","expand","arena_full_null","unbound_alloc_while_exclusive_arena_in_use","arena_capacity_counted","other_subprocess_blocks","foreign_block_freed_by_main" };
+  "misuse_detected","arena","abandoned_visit","expand","arena_full_null","unbound_alloc_while_exclusive_arena_in_use","arena_capacity_counted","other_subprocess_blocks","foreign_block_freed_by_main","forged_link_with_chosen_target" };
 // ---- counters
 enum { C_ALLOCS = 0, C_FREES, C_REALLOCS, C_BYTES_VERIFIED, C_NULLS, C_EDGE_CALLS, C_VISITED_BLOCKS, C_EXCLUDED, C_PURGE_CALLS, C_OSCALLS, C_ZERO_CHECKED, C_OWN_CHECKS, C_OS_MAP, C_OS_UNMAP, C_OS_COMMIT, C_OS_PROTECT, C_OS_ADVISE, C_FAULT_HIT, C_NULL_UNDER_FAULT, C_NCOUNTERS };
 static const char* COUNTER_NAMES[] = { "allocs","frees","reallocs","bytes_verified","null_returns","edge_calls","visited_blocks","excluded_by_guard","purge_calls","os_calls","zero_bytes_checked","ownership_checks","os_map_calls","os_unmap_calls","os_commit_calls","os_protect_calls","os_advise_calls","faults_hit","null_under_fault" };
